@@ -426,6 +426,8 @@ async fn bind(a: &[String]) -> Vec<String> {
         Err(e) => return fail(e),
     };
     let v6_addr = SocketAddrV6::new(Ipv6Addr::LOCALHOST, want_port, 0, 0);
+    // an independent probe of the host: can an IPv6 loopback socket be bound at all?
+    let host_v6 = UdpSocket::bind(SocketAddr::from((Ipv6Addr::LOCALHOST, 0))).is_ok();
     let bind_error = |kind: std::io::ErrorKind| {
         vec![
             format!("family=error:{kind:?}"),
@@ -433,6 +435,7 @@ async fn bind(a: &[String]) -> Vec<String> {
             "v4_reachable=-".into(),
             "v6_reachable=-".into(),
             "port_ok=-".into(),
+            format!("host_v6={host_v6}"),
         ]
     };
     let describe = |addr: &SocketAddr| {
